@@ -35,6 +35,7 @@ def main():
                 meta["detection"] = dict(check="bin/check %s --tier quick" % pid, detected=False, status="check timed out")
                 rows.append((name, pid, "missed (timeout)", ""))
                 continue
+            open(os.path.join(V, "out", "seed_%s.log" % name), "w").write(r.stdout + r.stderr)
             viol = [l for l in r.stdout.splitlines() if l.startswith("VIOLATION")]
             first = next((l for l in r.stdout.splitlines() if "rejected:" in l), "")
             m = re.search(r'"op": "([\w.]+)"', first)
